@@ -257,4 +257,204 @@ theorem ttl_in_grammar (s : List Char) (d : TTL) (h : ttlDenotation s = some d) 
           omega
         · cases h
 
+/-! ## decimal / hex round trips, file ids -/
+
+theorem digitVal_digitChar : ∀ d : Fin 10, digitVal (Nat.digitChar d.val) = some d.val := by decide
+
+theorem hexVal_hexDigit : ∀ d : Fin 16, hexVal (hexDigit d.val) = some d.val := by decide
+
+theorem digitChar_ne_comma : ∀ d : Fin 10, Nat.digitChar d.val ≠ ',' := by decide
+
+theorem pdStep10_digit (a d : Nat) (hd : d < 10) : pdStep 10 (some a) (Nat.digitChar d) = some (a * 10 + d) := by
+  have := digitVal_digitChar ⟨d, hd⟩
+  simp only at this
+  simp [pdStep, this]
+
+theorem pdStep16_hex (a d : Nat) (hd : d < 16) : pdStep 16 (some a) (hexDigit d) = some (a * 16 + d) := by
+  have := hexVal_hexDigit ⟨d, hd⟩
+  simp only at this
+  simp [pdStep, this]
+
+theorem pdFold_natToDec (n : Nat) : (Nat.toDigits 10 n).foldl (pdStep 10) (some 0) = some n := by
+  induction n using Nat.strongRecOn with
+  | _ n ih =>
+    rw [Nat.toDigits_eq_if (by decide)]
+    split
+    · rename_i h
+      simp [pdStep10_digit 0 n h]
+    · rename_i h
+      rw [List.foldl_append, ih (n / 10) (by omega)]
+      simp only [List.foldl_cons, List.foldl_nil]
+      rw [pdStep10_digit _ _ (Nat.mod_lt _ (by decide))]
+      congr 1; omega
+
+theorem parseDigits_natToDec (n : Nat) : parseDigits 10 (natToDec n) = some n := by
+  rw [parseDigits_eq, natToDec, pdFold_natToDec]
+  have : Nat.toDigits 10 n ≠ [] := Nat.toDigits_ne_nil
+  cases h : Nat.toDigits 10 n with
+  | nil => exact absurd h this
+  | cons => simp
+
+theorem natToDec_no_comma (n : Nat) : ∀ c ∈ natToDec n, c ≠ ',' := by
+  unfold natToDec
+  induction n using Nat.strongRecOn with
+  | _ n ih =>
+    rw [Nat.toDigits_eq_if (by decide)]
+    split
+    · rename_i h
+      intro c hc
+      simp only [List.mem_singleton] at hc
+      subst hc
+      exact digitChar_ne_comma ⟨n, h⟩
+    · intro c hc
+      simp only [List.mem_append, List.mem_singleton] at hc
+      rcases hc with hc | rfl
+      · exact ih (n / 10) (by omega) c hc
+      · exact digitChar_ne_comma ⟨n % 10, Nat.mod_lt _ (by decide)⟩
+
+theorem natToDec_ne_nil (n : Nat) : natToDec n ≠ [] := Nat.toDigits_ne_nil
+
+theorem pdFold_hexOfBytes (bs : List Nat) (a : Nat) (hb : ∀ b ∈ bs, b < 256) :
+    (hexOfBytes bs).foldl (pdStep 16) (some a) = some (bs.foldl (fun a b => a * 256 + b) a) := by
+  induction bs generalizing a with
+  | nil => rfl
+  | cons b bs ih =>
+    have hb0 : b < 256 := hb b (by simp)
+    simp only [hexOfBytes, List.flatMap_cons, List.foldl_append, List.foldl_cons, List.foldl_nil]
+    rw [pdStep16_hex _ _ (by omega), pdStep16_hex _ _ (by omega)]
+    have : (a * 16 + b / 16) * 16 + b % 16 = a * 256 + b := by omega
+    rw [this]
+    exact ih _ (fun x hx => hb x (by simp [hx]))
+
+theorem hexOfBytes_length (bs : List Nat) : (hexOfBytes bs).length = 2 * bs.length := by
+  induction bs with
+  | nil => rfl
+  | cons b bs ih =>
+    simp only [hexOfBytes, List.flatMap_cons, List.length_append, List.length_cons, List.length_nil] at ih ⊢
+    omega
+
+theorem hexOfBytes_append (xs ys : List Nat) : hexOfBytes (xs ++ ys) = hexOfBytes xs ++ hexOfBytes ys := by
+  simp [hexOfBytes, List.flatMap_append]
+
+theorem parseDigits_hexOfBytes (bs : List Nat) (hne : bs ≠ []) (hb : ∀ b ∈ bs, b < 256) :
+    parseDigits 16 (hexOfBytes bs) = some (beValue bs) := by
+  rw [parseDigits_eq, pdFold_hexOfBytes bs 0 hb]
+  have : (hexOfBytes bs).length = 2 * bs.length := hexOfBytes_length bs
+  cases h : hexOfBytes bs with
+  | nil =>
+    rw [h] at this
+    cases bs with
+    | nil => exact absurd rfl hne
+    | cons => simp at this
+  | cons => simp [beValue]
+
+theorem beValue_cons_zero (bs : List Nat) : beValue (0 :: bs) = beValue bs := by
+  simp [beValue]
+
+theorem beValue_dropLeadingZeroBytes (bs : List Nat) : beValue (dropLeadingZeroBytes bs) = beValue bs := by
+  unfold dropLeadingZeroBytes
+  induction bs with
+  | nil => rfl
+  | cons b bs ih =>
+    rw [List.dropWhile_cons]
+    split
+    · rename_i h
+      have : b = 0 := by simpa using h
+      subst this
+      rw [ih, beValue_cons_zero]
+    · rfl
+
+theorem dropLeadingZeroBytes_length_le (bs : List Nat) : (dropLeadingZeroBytes bs).length ≤ bs.length := by
+  unfold dropLeadingZeroBytes
+  induction bs with
+  | nil => simp
+  | cons b bs ih =>
+    rw [List.dropWhile_cons]
+    split
+    · simp only [List.length_cons]; omega
+    · exact Nat.le_refl _
+
+theorem mem_dropLeadingZeroBytes (bs : List Nat) : ∀ b ∈ dropLeadingZeroBytes bs, b ∈ bs := by
+  unfold dropLeadingZeroBytes
+  induction bs with
+  | nil => simp
+  | cons x bs ih =>
+    intro b hb
+    rw [List.dropWhile_cons] at hb
+    split at hb
+    · exact List.mem_cons_of_mem _ (ih b hb)
+    · exact hb
+
+theorem span_loop_append_sep (p : Char → Bool) (l r acc : List Char) (x : Char) (hl : ∀ c ∈ l, p c = true)
+    (hx : p x = false) : List.span.loop p (l ++ x :: r) acc = (acc.reverse ++ l, x :: r) := by
+  induction l generalizing acc with
+  | nil => simp [List.span.loop, hx]
+  | cons c l ih =>
+    have hc : p c = true := hl c (by simp)
+    simp only [List.cons_append, List.span.loop, hc]
+    rw [ih _ (fun d hd => hl d (by simp [hd]))]
+    simp
+
+theorem span_append_sep (p : Char → Bool) (l r : List Char) (x : Char) (hl : ∀ c ∈ l, p c = true)
+    (hx : p x = false) : (l ++ x :: r).span p = (l, x :: r) := by
+  unfold List.span
+  rw [span_loop_append_sep p l r [] x hl hx]; rfl
+
+theorem splitAtComma_sep (l r : List Char) (hne : l ≠ []) (hl : ∀ c ∈ l, c ≠ ',') :
+    splitAtComma (l ++ [','] ++ r) = some (l, r) := by
+  unfold splitAtComma
+  rw [List.append_assoc, List.singleton_append,
+    span_append_sep _ l r ',' (fun c hc => by simpa using hl c hc) (by simp)]
+  cases l with
+  | nil => exact absurd rfl hne
+  | cons => rfl
+
+theorem parseUint_of_digits (base bits : Nat) (cs : List Char) (v : Nat) (h : parseDigits base cs = some v)
+    (hv : v < 2 ^ bits) : parseUint base bits cs = (v, true) := by
+  unfold parseUint
+  rw [h]
+  simp [hv]
+
+theorem parseNeedleIdCookie_format (key cookie : Nat) (hk : 0 < key) (hk' : key < 2 ^ 64)
+    (hc : cookie < 2 ^ 32) : parseNeedleIdCookie (formatNeedleIdCookie key cookie) = some (key, cookie) := by
+  unfold parseNeedleIdCookie formatNeedleIdCookie
+  generalize hD : dropLeadingZeroBytes (beBytes 8 key) = D
+  have hDv : beValue D = key := by
+    rw [← hD, beValue_dropLeadingZeroBytes, beValue_beBytes 8 key (by simpa using hk')]
+  have hDne : D ≠ [] := by
+    intro h; rw [h] at hDv; simp [beValue] at hDv; omega
+  have hDpos : 0 < D.length := List.length_pos_iff.mpr hDne
+  have hDle : D.length ≤ 8 := by
+    rw [← hD]
+    have := dropLeadingZeroBytes_length_le (beBytes 8 key)
+    rw [beBytes_length] at this; exact this
+  have hDlt : ∀ b ∈ D, b < 256 := by
+    intro b hb; rw [← hD] at hb
+    exact beBytes_lt 8 key b (mem_dropLeadingZeroBytes _ b hb)
+  have hCl : (beBytes 4 cookie).length = 4 := beBytes_length _ _
+  have hCne : beBytes 4 cookie ≠ [] := by
+    intro h; rw [h] at hCl; simp at hCl
+  have hlen : (hexOfBytes (D ++ beBytes 4 cookie)).length = 2 * D.length + 8 := by
+    rw [hexOfBytes_length, List.length_append, hCl]; omega
+  have hDhl : (hexOfBytes D).length = 2 * D.length + 8 - 8 := by
+    rw [hexOfBytes_length]; omega
+  rw [hlen, if_neg (by omega), if_neg (by omega)]
+  simp only
+  rw [hexOfBytes_append, List.take_left' hDhl, List.drop_left' hDhl]
+  rw [parseUint_of_digits 16 64 _ _ (parseDigits_hexOfBytes D hDne hDlt) (by rw [hDv]; exact hk'),
+    parseUint_of_digits 16 32 _ _ (parseDigits_hexOfBytes _ hCne (beBytes_lt 4 cookie))
+      (by rw [beValue_beBytes 4 cookie (by simpa using hc)]; exact hc)]
+  simp only [hDv, beValue_beBytes 4 cookie (by simpa using hc)]
+
+theorem fid_roundtrip_lemma (vid key cookie : Nat) (hk : 0 < key) (hk' : key < 2 ^ 64) (hv : vid < 2 ^ 32)
+    (hc : cookie < 2 ^ 32) : parseFid (fidString ⟨vid, key, cookie⟩) = some ⟨vid, key, cookie⟩ := by
+  unfold parseFid fidString
+  simp only
+  rw [splitAtComma_sep _ _ (natToDec_ne_nil vid) (natToDec_no_comma vid)]
+  simp only
+  rw [parseUint_of_digits 10 64 _ vid (parseDigits_natToDec vid) (by omega)]
+  simp only
+  rw [parseNeedleIdCookie_format key cookie hk hk' hc]
+  simp only [Nat.mod_eq_of_lt hv]
+
 end SwV.Lemmas.C08
